@@ -234,7 +234,32 @@ if P.get('scenarios'):
     dawgie.util.task_name = T._mock_task_name
     dawgie.util.names.task_name = T._mock_task_name
     timers = []
-    R.callLater = lambda delay, f, *a, **k: timers.append((delay, f, a))
+
+    class DelayedCall:
+        '''what reactor.callLater hands back (IDelayedCall): pending until it
+        fires or is cancelled; inside its own callback it is no longer active'''
+
+        def __init__(self, delay):
+            self.delay, self.called, self.cancelled = delay, False, False
+            # the instant it will fire (seconds since the epoch, frozen clock)
+            self.due = Clock._now.timestamp() + delay
+
+        def active(self):
+            return not (self.called or self.cancelled)
+
+        def cancel(self):
+            self.cancelled = True
+            timers[:] = [t for t in timers if t[3] is not self]
+
+        def getTime(self):
+            return self.delay
+
+    def _call_later(delay, f, *a, **k):
+        dc = DelayedCall(delay)
+        timers.append((delay, f, a, dc))
+        return dc
+
+    R.callLater = _call_later
     WORK = {'root': (T.task, T._root), 'A': (T.task, T._A), 'B': (T.task, T._B),
             'C': (T.task, T._C), 'D': (T.regress, T._D), 'E': (T.analysis, T._E)}
     import dawgie.pl.logger.chronicle as CH
@@ -257,6 +282,7 @@ if P.get('scenarios'):
             }
         return {'que': [j.tag for j in S.que], 'per': [n.tag for n in S.per],
                 'nodes': nodes, 'timers': [t[0] for t in timers],
+                'timers_due': [t[3].due for t in timers],
                 'booted': len(S.booted), 'paused': bool(S.is_paused())}
 
     def pre_delays(now, pairs):
@@ -356,7 +382,8 @@ if P.get('scenarios'):
                     Clock._now = instant(step[1])
                     pending = list(timers)
                     del timers[:]
-                    for delay, f, a in pending:
+                    for delay, f, a, dc in pending:
+                        dc.called = True
                         f(*a)
                 elif op == 'dispatch':
                     # farm.dispatch: jobs of next_job_batch are handed out and
